@@ -5,30 +5,39 @@ package main
 // Suite multi-run (property C08: runs of a scenario are independent and safe to execute
 // concurrently).
 //
-//  1. ClonePrivate on the real objects.  For every annealer family crem's configuration can build
-//     (Kirkpatrick, Suppapitnarm, AveragedSuppapitnarm over the catchment model with shipped CSV
-//     data; Kirkpatrick over the DumbModel) the configured annealer is built by crem's own
-//     configuration path, cloned twice with DeepClone() and prepared exactly as Runner.run does
-//     (ids, observer wiring, explorer Initialise()).  Both object graphs are walked by reflection;
-//     every identity reachable from BOTH clones is reduced to its top-most nodes, each of which
-//     must be on the reviewed allow-list below (immutable after construction, or internally
-//     locked).  Anything else: Ctx.Fail `runs:clone-shares:<type>`.  The identities of the
-//     temperature cells (template, clone 1, clone 2) and the classified shared nodes go to the
-//     Lean driver, which decides the model's `ClonePrivate` on them.
+//  1. The hypothesis `ClonePrivate` of the model, sampled on the real objects.  For every annealer
+//     family crem's configuration can build (Kirkpatrick, Suppapitnarm, AveragedSuppapitnarm over the
+//     catchment model with shipped CSV data; Kirkpatrick over the DumbModel; Kirkpatrick with
+//     CheckingLoopInvariant) the configured annealer is built by crem's own configuration path, cloned
+//     twice with DeepClone() and prepared exactly as Runner.run does (ids, observer wiring, explorer
+//     Initialise()).  The object graphs of template and clones are walked by reflection; every identity
+//     reachable from BOTH clones is reduced to its top-most nodes, each of which must be on the reviewed
+//     allow-list below: Ctx.Fail `runs:clone-shares:<type>` otherwise.  Then both clones are ANNEALED (one
+//     after the other, in process) with the content of every node shared between the clones or with the
+//     template recorded before and after: a shared node whose content changed was written by that run;
+//     unless every access to it is lock-guarded (classes below) that is `runs:shared-written:<type><field>`.
+//     The walk is repeated after annealing.  The sets (shared nodes a clone reaches = R, shared nodes it
+//     wrote = W, lock-guarded = L) go to the Lean driver, which evaluates the model's `Disjoint` on them.
 //  2. Whole scenarios, each in a CHILD PROCESS (see suite_multirun_child.go): run counts 1-6 x
 //     concurrency 1-6, three families, CSV data by relative and by absolute path, relative and
-//     absolute output path, CSV and JSON output.  Per run: temperature, first iteration number,
-//     archive size at StartedAnnealing; number and ids of FinishedAnnealing events; final
-//     temperature; one complete output file.  Compared with the model's expectation
-//     (`fresh_start`, `noninterference`) and evaluated directly.
+//     absolute output path, CSV and JSON output, OutputLevel Summary and Detail.  Per run: temperature,
+//     first iteration number, archive size at StartedAnnealing; number and ids of FinishedAnnealing
+//     events with the encodings of the solutions the run finished with; final temperature; one complete
+//     output file holding exactly those encodings.  Compared with the model's expectation
+//     (`fresh_start_anneal`, `noninterference`) and evaluated directly.  In every child the content of
+//     every object reachable from the configured annealer is compared before / after Run().
 //  3. Process-global state: the working directory must be the same before and after Run(); one
 //     concurrent scenario per family is executed under `strace -f -e trace=chdir` and any chdir
 //     between the two markers bracketing Run() is a failure; concurrent relative-path scenarios
 //     are repeated until one run fails to load its data.
-//  4. Fault injection: the explorer of ONE designated clone panics in a chosen iteration; the
-//     sibling runs' results must still appear and Run() must return, naming the failed run.
-//  5. With a `-race` build of the harness (thorough tier) the children are race-instrumented:
-//     "WARNING: DATA RACE" on stderr => `runs:data-race:<first racing symbol>`.
+//  4. Fault injection: ONE designated run panics while it is cloned (Runner.run before Anneal), in a
+//     chosen iteration, or in a FinishedAnnealing observer placed before the saver; the sibling runs'
+//     results must still appear and Run() must return, naming the failed run.
+//  5. result = solo on the real code: with every generator of a run seeded from the run's id (harness-side
+//     wrapper, see the child) the same scenario is executed with all runs concurrent, with all runs
+//     sequential, and every run ALONE (Runner.run(i) only): the files of run i must be byte-identical.
+//  6. With a `-race` build of the harness (thorough tier) the children are race-instrumented:
+//     every "WARNING: DATA RACE" block on stderr => `runs:data-race:<racing symbol>`, one per symbol.
 
 import (
 	"bytes"
@@ -117,6 +126,42 @@ func classify(n *walkNode) (string, bool) {
 	return "-", false
 }
 
+// Being reachable from two runs is one thing, being WRITTEN during a run another: the allow-list above
+// exempts a shared node (with everything below it) from `runs:clone-shares`, it does not exempt it from
+// the content comparison.  A node of the shared part whose content changed during Run() / Anneal() is
+// admissible only if every access to it is inside a lock-guarded section:
+var writtenRules = []struct {
+	class, reason string
+	match         func(path, typ string) bool
+}{
+	{"harness", "the suite's own recording observer / fault wrapper (locks itself)", func(p, t string) bool {
+		return strings.Contains(p, "(*main.") || strings.HasPrefix(t, "*main.") || strings.HasPrefix(t, "main.")
+	}},
+	{"saver-locked", "scenario.Saver.decompressionModel and everything below it: only touched between decompressionMutex.Lock() and Unlock() (Saver.go derive*Solution*)",
+		func(p, t string) bool { return strings.Contains(p, "(*scenario.Saver).decompressionModel") }},
+	{"logger-locked", "log destinations: written through log.Logger / os.File, which lock internally", func(p, t string) bool {
+		return strings.Contains(p, "(*log.Logger)") || strings.Contains(p, "(*os.File)") || strings.Contains(p, "(*os.file)") || strings.HasPrefix(t, "*log.Logger") || t == "*os.file" || t == "*os.File"
+	}},
+}
+
+func classifyWritten(path, typ string) (string, bool) {
+	for _, r := range writtenRules {
+		if r.match(path, typ) {
+			return r.class, true
+		}
+	}
+	return "-", false
+}
+
+// writtenSignature names a written shared object by its type and the first field that differs.
+func writtenSignature(w writtenNode) string {
+	leaf := w.Leaf
+	if i := strings.Index(leaf, "["); i >= 0 {
+		leaf = leaf[:i] + "[]"
+	}
+	return "runs:shared-written:" + shortType(w.Type) + leaf
+}
+
 // ---------------------------------------------------------------- environment
 
 type mrEnv struct {
@@ -187,6 +232,8 @@ type mrResult struct {
 	child             childResult
 	haveChild         bool
 	events            []mrEvent
+	written           []writtenNode
+	haveWritten       bool
 	strace            string
 	straceRan         bool
 	straceUnavailable bool
@@ -236,6 +283,11 @@ func (e *mrEnv) runChild(k mrCase, dir string) *mrResult {
 	if cb, err := os.ReadFile(filepath.Join(outDir, "child.json")); err == nil {
 		if json.Unmarshal(cb, &r.child) == nil {
 			r.haveChild = true
+		}
+	}
+	if wb, err := os.ReadFile(filepath.Join(outDir, "written.json")); err == nil {
+		if json.Unmarshal(wb, &r.written) == nil {
+			r.haveWritten = true
 		}
 	}
 	if eb, err := os.ReadFile(filepath.Join(outDir, "events.log")); err == nil {
@@ -322,16 +374,29 @@ func chdirsInRun(strace string) (n int, sample string, complete bool) {
 
 var raceSymRe = regexp.MustCompile(`(?m)^(?:Write|Read|Previous write|Previous read)[^\n]*\n\s+(\S+)\(\)`)
 
-func firstRace(stderr string) (string, bool) {
-	i := strings.Index(stderr, "WARNING: DATA RACE")
-	if i < 0 {
-		return "", false
+// allRaces returns, for EVERY race report on stderr, the symbols of the two racing accesses (first frame
+// each): one finding per distinct symbol, so that a known race cannot hide a new one.
+func allRaces(stderr string) (syms []string, firstBlock map[string]string) {
+	firstBlock = map[string]string{}
+	blocks := strings.Split(stderr, "WARNING: DATA RACE")
+	for _, b := range blocks[1:] {
+		if i := strings.Index(b, "=================="); i >= 0 {
+			b = b[:i]
+		}
+		ms := raceSymRe.FindAllStringSubmatch(b, -1)
+		if len(ms) == 0 {
+			ms = [][]string{{"", "?"}}
+		}
+		for _, m := range ms {
+			sym := strings.TrimPrefix(m[1], "github.com/LindsayBradford/crem/")
+			if _, ok := firstBlock[sym]; !ok {
+				firstBlock[sym] = b
+				syms = append(syms, sym)
+			}
+		}
 	}
-	sym := "?"
-	if m := raceSymRe.FindStringSubmatch(stderr[i:]); m != nil {
-		sym = strings.TrimPrefix(m[1], "github.com/LindsayBradford/crem/")
-	}
-	return sym, true
+	sort.Strings(syms)
+	return
 }
 
 // ---------------------------------------------------------------- per-run observations
@@ -348,6 +413,7 @@ type runObs struct {
 	finT     string
 	finIter  string
 	finSize  string
+	finEnc   string
 	inflight int
 	eventIDs map[string]bool
 }
@@ -376,7 +442,7 @@ func groupRuns(evs []mrEvent) []*runObs {
 			o.firstIt = ev.fields["iter"]
 		case 'F':
 			o.finN++
-			o.finID, o.finT, o.finIter, o.finSize = ev.fields["payload"], ev.fields["T"], ev.fields["iter"], ev.fields["size"]
+			o.finID, o.finT, o.finIter, o.finSize, o.finEnc = ev.fields["payload"], ev.fields["T"], ev.fields["iter"], ev.fields["size"], ev.fields["enc"]
 		}
 	}
 	out := make([]*runObs, 0, len(order))
@@ -435,9 +501,42 @@ func failedIDs(runError string) []string {
 // ---------------------------------------------------------------- output files
 
 type outputCheck struct {
-	perRun    map[int]string // run index -> "" (complete) or what is wrong
-	asIs      map[int]string // run index -> as-is row (CSV) for cross-run comparison
+	perRun    map[int]string   // run index -> "" (complete) or what is wrong
+	asIs      map[int]string   // run index -> as-is row (values and encoding) for cross-run comparison
+	encs      map[int][]string // run index -> encodings of the non-as-is rows of the summary, in file order
+	haveEncs  map[int]bool
+	files     map[int][]string // run index -> every file written for that run (summary + details)
 	misplaced []string
+}
+
+// jsonSummary is the shape of a JSON solution-set summary (encoding/json of solutionset.Summary)
+type jsonSummary struct {
+	SolutionSet string `json:"SolutionSet"`
+	Solutions   []struct {
+		Id        string `json:"Id"`
+		Variables []struct {
+			Name  string      `json:"Name"`
+			Value json.Number `json:"Value"`
+		} `json:"Variables"`
+		Actions string `json:"Actions"`
+	} `json:"Solutions"`
+}
+
+var detailLabelRe = regexp.MustCompile(`Solution\(([^)]*)\)`)
+
+func (e *mrEnv) outDirOf(k mrCase) string {
+	outDir := k.OutputPath
+	if !filepath.IsAbs(outDir) {
+		outDir = filepath.Join(k.Cwd, outDir)
+	}
+	return outDir
+}
+
+func runTag(i, runs int) string {
+	if runs > 1 {
+		return fmt.Sprintf("(%d_of_%d)", i, runs)
+	}
+	return ""
 }
 
 func (e *mrEnv) checkOutputs(r *mrResult) outputCheck {
@@ -449,34 +548,44 @@ func (e *mrEnv) checkOutputs(r *mrResult) outputCheck {
 			sizes[i], _ = strconv.Atoi(o.finSize)
 		}
 	}
-	oc := outputCheck{perRun: map[int]string{}, asIs: map[int]string{}}
-	outDir := k.OutputPath
-	if !filepath.IsAbs(outDir) {
-		outDir = filepath.Join(k.Cwd, outDir)
-	}
+	oc := outputCheck{perRun: map[int]string{}, asIs: map[int]string{}, encs: map[int][]string{}, haveEncs: map[int]bool{}, files: map[int][]string{}}
+	outDir := e.outDirOf(k)
 	ext := ".csv"
 	if k.OutputType == "JSON" {
 		ext = ".json"
 	}
 	entries, _ := os.ReadDir(outDir)
 	for i := 1; i <= k.Runs; i++ {
-		tag := ""
-		if k.Runs > 1 {
-			tag = fmt.Sprintf("(%d_of_%d)", i, k.Runs)
-		}
+		tag := runTag(i, k.Runs)
 		found := ""
+		detailLabels := map[string]bool{} // CSV detail output has two files per solution, JSON one
 		for _, en := range entries {
 			n := en.Name()
-			if strings.HasSuffix(strings.ToLower(n), ext) && strings.Contains(n, tag) && strings.Contains(n, "Summary") {
-				found = filepath.Join(outDir, n)
-				// prefer the solution-set summary over a stray as-is file
-				if !strings.Contains(n, "As-Is") {
-					break
+			if !strings.HasSuffix(strings.ToLower(n), ext) || !strings.HasPrefix(n, k.Name+tag) {
+				continue
+			}
+			oc.files[i] = append(oc.files[i], filepath.Join(outDir, n))
+			if strings.Contains(n, "Summary") {
+				if found == "" || !strings.Contains(n, "As-Is") {
+					found = filepath.Join(outDir, n)
+				}
+			} else if m := detailLabelRe.FindStringSubmatch(n); m != nil {
+				detailLabels[m[1]] = true
+				if b, err := os.ReadFile(filepath.Join(outDir, n)); err != nil || len(b) == 0 || (ext == ".json" && !json.Valid(b)) {
+					oc.perRun[i] = "empty, unreadable or invalid detail file " + n
 				}
 			}
 		}
+		sort.Strings(oc.files[i])
 		if found == "" {
 			oc.perRun[i] = "no summary file for run " + strconv.Itoa(i) + " in " + outDir
+			continue
+		}
+		if _, finished := sizes[i]; finished && k.Detail && len(detailLabels) != sizes[i]+1 && oc.perRun[i] == "" {
+			oc.perRun[i] = fmt.Sprintf("OutputLevel Detail: detail files of %d solution(s) for run %d; as-is + the %d solution(s) the run finished with expected", len(detailLabels), i, sizes[i])
+			continue
+		}
+		if oc.perRun[i] != "" {
 			continue
 		}
 		b, err := os.ReadFile(found)
@@ -485,10 +594,28 @@ func (e *mrEnv) checkOutputs(r *mrResult) outputCheck {
 			continue
 		}
 		if ext == ".json" {
-			if !json.Valid(b) {
-				oc.perRun[i] = "invalid JSON in " + found
-			} else {
-				oc.perRun[i] = ""
+			var js jsonSummary
+			dec := json.NewDecoder(bytes.NewReader(b))
+			if err := dec.Decode(&js); err != nil {
+				oc.perRun[i] = "invalid JSON in " + found + ": " + err.Error()
+				continue
+			}
+			if len(js.Solutions) != 1+sizes[i] {
+				oc.perRun[i] = fmt.Sprintf("summary %s has %d solutions; as-is + the %d solution(s) the run finished with expected", found, len(js.Solutions), sizes[i])
+				continue
+			}
+			oc.perRun[i] = ""
+			oc.haveEncs[i] = true
+			for _, sol := range js.Solutions {
+				if sol.Id == "As-Is" {
+					var vs []string
+					for _, v := range sol.Variables {
+						vs = append(vs, v.Name+"="+v.Value.String())
+					}
+					oc.asIs[i] = strings.Join(vs, ",") + ",Actions=" + sol.Actions
+				} else {
+					oc.encs[i] = append(oc.encs[i], sol.Actions)
+				}
 			}
 			continue
 		}
@@ -509,11 +636,20 @@ func (e *mrEnv) checkOutputs(r *mrResult) outputCheck {
 				}
 			}
 			oc.perRun[i] = bad
+			actionsCol := -1
+			for ci, h := range rows[0] {
+				if strings.TrimSpace(h) == "Actions" {
+					actionsCol = ci
+				}
+			}
 			for _, row := range rows[1:] {
 				if len(row) > 0 && row[0] == "As-Is" {
 					oc.asIs[i] = strings.Join(row[1:len(row)-1], ",")
+				} else if actionsCol >= 0 && actionsCol < len(row) {
+					oc.encs[i] = append(oc.encs[i], strings.TrimSpace(row[actionsCol]))
 				}
 			}
+			oc.haveEncs[i] = actionsCol >= 0 && bad == ""
 		}
 	}
 	// summaries written anywhere else under the case directory
@@ -535,9 +671,28 @@ func caseLine(k mrCase) string {
 
 func (e *mrEnv) commonChecks(r *mrResult, ops []string) {
 	c, k := e.c, r.k
-	if sym, raced := firstRace(r.stderr); raced {
-		i := strings.Index(r.stderr, "WARNING: DATA RACE")
-		c.Fail("C08:no-data-race", "runs:data-race:"+sym, fmt.Sprintf("race detector report in a %s scenario (runs=%d conc=%d):\n%s", k.Family, k.Runs, k.Conc, clip(r.stderr[i:], 1500)), ops)
+	if syms, blocks := allRaces(r.stderr); len(syms) > 0 {
+		for _, sym := range syms {
+			c.Fail("C08:no-data-race", "runs:data-race:"+sym, fmt.Sprintf("race detector report in a %s scenario (runs=%d conc=%d):\nWARNING: DATA RACE%s", k.Family, k.Runs, k.Conc, clip(blocks[sym], 1500)), ops)
+		}
+		c.Stat(fmt.Sprintf("race reports: %d distinct symbol(s)", len(syms)))
+	}
+	// content of everything reachable from the configured annealer, before / after Run()
+	if r.haveChild && r.child.Built && r.child.WalkError != "" {
+		c.Fail("C08:structural:shared-content-readable", "runs:shared-content-walk-failed", "the child could not walk / re-read the object graph of the configured annealer: "+r.child.WalkError, ops)
+	}
+	if r.haveWritten {
+		c.Stat("shared content compared across Run()")
+		for _, w := range r.written {
+			class, admissible := classifyWritten(w.Path, w.Type)
+			c.Stat("written during Run(): " + shortType(w.Type) + " [" + class + "]")
+			if admissible || k.Runs < 2 || k.Solo > 0 {
+				continue
+			}
+			c.Fail("C08:shared-objects-not-written", writtenSignature(w),
+				fmt.Sprintf("%s scenario runs=%d conc=%d: %s %s, reachable from the configured annealer (which every run clones: every run reaches it), was written during Run(): %s was %s, is %s (%d leaf value(s) differ); path %s; it is not in a class whose accesses are all lock-guarded",
+					k.Family, k.Runs, k.Conc, w.Kind, shortType(w.Type), w.Leaf, w.Before, w.After, w.Leaves, w.Path), ops)
+		}
 	}
 	if r.timedOut {
 		c.Fail("C08:all-runs-complete", "runs:timeout", fmt.Sprintf("child did not finish (%s runs=%d conc=%d)", k.Family, k.Runs, k.Conc), ops)
@@ -695,22 +850,43 @@ func (e *mrEnv) evalScenario(r *mrResult) {
 			}
 			c.Fail("C08:own-complete-result", sig, fmt.Sprintf("%s scenario runs=%d conc=%d out=%s: %s", k.Family, k.Runs, k.Conc, k.OutputPath, first), ops)
 		}
-		ref := ""
+		ref, nAsIs := "", 0
 		for i := 1; i <= k.Runs; i++ {
 			if a, ok := oc.asIs[i]; ok {
+				nAsIs++
 				if ref == "" {
 					ref = a
 				} else if a != ref {
-					c.Fail("C08:same-input-data", "runs:as-is-differs", fmt.Sprintf("as-is rows of two runs of one scenario differ: %q vs %q", ref, a), ops)
+					c.Fail("C08:same-input-data", "runs:as-is-differs", fmt.Sprintf("as-is rows of two runs of one %s scenario (%s output) differ: %q vs %q", k.Family, k.OutputType, ref, a), ops)
 				}
 			}
+		}
+		if first == "" && k.Model != "DumbModel" && nAsIs != k.Runs {
+			c.Fail("C08:same-input-data", "runs:as-is-missing", fmt.Sprintf("%s scenario runs=%d (%s output): only %d of the summaries hold an as-is row", k.Family, k.Runs, k.OutputType, nAsIs), ops)
+		}
+		c.Stat(fmt.Sprintf("as-is rows compared across runs type=%s n=%d", k.OutputType, nAsIs))
+		// "its OWN complete result": the file of run i holds exactly the solutions run i finished with
+		for _, o := range runs {
+			i := runIndex(k.Name, o.finID, k.Runs)
+			if i == 0 || o.finN != 1 || !oc.haveEncs[i] || oc.perRun[i] != "" {
+				continue
+			}
+			want := []string{}
+			if o.finEnc != "-" && o.finEnc != "" {
+				want = strings.Split(o.finEnc, ",")
+			}
+			got := oc.encs[i]
+			if strings.Join(want, ",") != strings.Join(got, ",") {
+				c.Fail("C08:own-complete-result", "runs:result-of-another-run", fmt.Sprintf("%s scenario runs=%d conc=%d (%s): run %q finished with the solutions %v, its summary file holds %v", k.Family, k.Runs, k.Conc, k.OutputType, o.finID, want, got), ops)
+			}
+			c.Stat("member encodings of the finish event matched with the run's file")
 		}
 	}
 	c.Op(op, sb.String())
 	c.Stat(fmt.Sprintf("scenario family=%s runs=%d conc=%d", familyToken(k), k.Runs, k.Conc))
-	c.Stat(fmt.Sprintf("scenario data=%s out=%s type=%s", absRel(k.DataPath), absRel(k.OutputPath), k.OutputType))
+	c.Stat(fmt.Sprintf("scenario data=%s out=%s type=%s detail=%v", absRel(k.DataPath), absRel(k.OutputPath), k.OutputType, k.Detail))
 	if k.Runs > 1 {
-		c.Nontrivial(fmt.Sprintf("%s/%d/%d/%s/%s/%s/%d", familyToken(k), k.Runs, k.Conc, absRel(k.DataPath), absRel(k.OutputPath), k.OutputType, k.MaxIter))
+		c.Nontrivial(fmt.Sprintf("%s/%d/%d/%s/%s/%s/%v/%d", familyToken(k), k.Runs, k.Conc, absRel(k.DataPath), absRel(k.OutputPath), k.OutputType, k.Detail, k.MaxIter))
 	}
 }
 
@@ -754,9 +930,13 @@ func bitsToDecimal(bits string) string {
 
 func (e *mrEnv) evalFault(r *mrResult) {
 	c, k := e.c, r.k
+	site := k.Site
+	if site == "" {
+		site = "step"
+	}
 	opReset := caseLine(k)
 	c.Op(opReset, "ok")
-	op := fmt.Sprintf("fault %s %s %d %d %d %d %d", familyToken(k), k.Name, k.Runs, k.Conc, k.Designated, k.At, k.MaxIter)
+	op := fmt.Sprintf("fault %s %s %d %d %d %s %d %d", familyToken(k), k.Name, k.Runs, k.Conc, k.Designated, site, k.At, k.MaxIter)
 	ops := []string{opReset, op}
 	e.commonChecks(r, ops)
 	runs := groupRuns(r.events)
@@ -765,37 +945,60 @@ func (e *mrEnv) evalFault(r *mrResult) {
 	if returned && r.child.RunError != "" {
 		failed = failedIDs(r.child.RunError)
 	}
-	var finished []string
+	var finished, saved []string
+	started := 0
 	for _, o := range runs {
+		if o.startN > 0 {
+			started++
+		}
 		if o.finN > 0 {
 			finished = append(finished, under(o.finID))
 		}
 	}
 	sort.Strings(finished)
-	c.Op(op, fmt.Sprintf("returned=%s failed=[%s] finished=[%s]", b2s(returned), strings.Join(failed, ","), strings.Join(finished, ",")))
-	c.Stat(fmt.Sprintf("fault family=%s runs=%d conc=%d", familyToken(k), k.Runs, k.Conc))
-	c.Nontrivial(fmt.Sprintf("fault/%s/%d/%d/%d/%d/%v", familyToken(k), k.Runs, k.Conc, k.Designated, k.At, k.AsError))
+	oc := e.checkOutputs(r)
+	for i := 1; i <= k.Runs; i++ {
+		for _, f := range oc.files[i] {
+			if strings.Contains(filepath.Base(f), "Summary") {
+				saved = append(saved, under(expectedID(k.Name, i, k.Runs)))
+				break
+			}
+		}
+	}
+	c.Op(op, fmt.Sprintf("returned=%s failed=[%s] started=%d finished=[%s] saved=[%s]", b2s(returned), strings.Join(failed, ","), started,
+		strings.Join(finished, ","), strings.Join(saved, ",")))
+	c.Stat(fmt.Sprintf("fault family=%s site=%s runs=%d conc=%d", familyToken(k), site, k.Runs, k.Conc))
+	c.Nontrivial(fmt.Sprintf("fault/%s/%s/%d/%d/%d/%d/%v", familyToken(k), site, k.Runs, k.Conc, k.Designated, k.At, k.AsError))
 
 	want := k.Runs - 1
-	if !returned || len(finished) != want {
+	if !returned || len(saved) != want {
 		c.Fail("C08:failure-does-not-leak", "runs:panic-not-isolated",
-			fmt.Sprintf("%s scenario runs=%d conc=%d, the explorer of run %d panics in iteration %d: Run() returned=%v (child exit %d: %s); %d of the %d sibling runs delivered a result (%v)",
-				k.Family, k.Runs, k.Conc, k.Designated, k.At, returned, r.exit, firstPanic(r.stderr), len(finished), want, finished), ops)
+			fmt.Sprintf("%s scenario runs=%d conc=%d, run %d panics (site: %s, iteration %d): Run() returned=%v (child exit %d: %s); %d of the %d sibling runs delivered a result (%v)",
+				k.Family, k.Runs, k.Conc, k.Designated, site, k.At, returned, r.exit, firstPanic(r.stderr), len(saved), want, saved), ops)
 		return
 	}
 	if len(failed) != 1 {
 		c.Fail("C08:failure-is-reported", "runs:failure-not-reported",
-			fmt.Sprintf("one run panicked but Run() returned error %q (failed runs recognised: %v)", r.child.RunError, failed), ops)
+			fmt.Sprintf("one run panicked (site: %s) but Run() returned error %q (failed runs recognised: %v)", site, r.child.RunError, failed), ops)
 	}
-	// the siblings must each have written their result
-	oc := e.checkOutputs(r)
+	// the siblings must each have written their own complete result
+	designated := under(expectedID(k.Name, k.Designated, k.Runs))
 	for _, o := range runs {
-		if o.finN == 0 {
+		if o.finN == 0 || under(o.finID) == designated {
 			continue
 		}
 		i := runIndex(k.Name, o.finID, k.Runs)
 		if i > 0 && oc.perRun[i] != "" {
 			c.Fail("C08:failure-does-not-leak", "runs:sibling-output-missing", fmt.Sprintf("sibling run %q of a failed run: %s", o.finID, oc.perRun[i]), ops)
+		}
+		if i > 0 && oc.haveEncs[i] && oc.perRun[i] == "" {
+			want := ""
+			if o.finEnc != "-" {
+				want = o.finEnc
+			}
+			if got := strings.Join(oc.encs[i], ","); got != want {
+				c.Fail("C08:own-complete-result", "runs:result-of-another-run", fmt.Sprintf("fault scenario: sibling run %q finished with %q, its file holds %q", o.finID, want, got), ops)
+			}
 		}
 		if o.startT != floatBits(k.T0) {
 			c.Fail("C08:run-starts-at-configured-temperature", "runs:run-starts-cold", fmt.Sprintf("fault scenario: run %q started at %s", o.finID, bitsToDecimal(o.startT)), ops)
@@ -803,20 +1006,147 @@ func (e *mrEnv) evalFault(r *mrResult) {
 	}
 }
 
+// ---------------------------------------------------------------- result = solo under deterministic seeding
+
+// seededVariants: the scenario with all runs concurrent, with all runs sequential, and every run alone.
+func seededVariants(k mrCase) []mrCase {
+	conc, seq := k, k
+	conc.Conc, conc.Solo = k.Runs, 0
+	seq.Conc, seq.Solo = 1, 0
+	out := []mrCase{conc, seq}
+	for i := 1; i <= k.Runs; i++ {
+		solo := k
+		solo.Conc, solo.Solo = 1, i
+		out = append(out, solo)
+	}
+	return out
+}
+
+func firstDifference(a, b []byte) string {
+	la, lb := strings.Split(string(a), "\n"), strings.Split(string(b), "\n")
+	for i := 0; i < len(la) || i < len(lb); i++ {
+		x, y := "<eof>", "<eof>"
+		if i < len(la) {
+			x = la[i]
+		}
+		if i < len(lb) {
+			y = lb[i]
+		}
+		if x != y {
+			return fmt.Sprintf("line %d: %q vs %q", i+1, clip(x, 200), clip(y, 200))
+		}
+	}
+	return "no difference"
+}
+
+// evalSeeded: rs = [concurrent, sequential, solo 1, …, solo N] of one seeded scenario.
+func (e *mrEnv) evalSeeded(rs []*mrResult) {
+	c := e.c
+	k := rs[0].k
+	opReset := caseLine(k)
+	c.Op(opReset, "ok")
+	op := fmt.Sprintf("probe seeded-result-equals-solo %s runs=%d iterations=%d type=%s detail=%v", familyToken(k), k.Runs, k.MaxIter, k.OutputType, k.Detail)
+	ops := []string{opReset, op}
+	c.Op(op, "done")
+	c.Stat(fmt.Sprintf("seeded family=%s runs=%d type=%s detail=%v", familyToken(k), k.Runs, k.OutputType, k.Detail))
+	c.Nontrivial(fmt.Sprintf("seeded/%s/%d/%d/%s/%v", familyToken(k), k.Runs, k.MaxIter, k.OutputType, k.Detail))
+	names := []string{"all runs concurrent", "all runs sequential"}
+	for i := 1; i <= k.Runs; i++ {
+		names = append(names, fmt.Sprintf("run %d alone", i))
+	}
+	for vi, r := range rs {
+		e.commonChecks(r, ops)
+		if pred, sig, what, ok := foreignDefect(r); ok {
+			c.Fail(pred, sig, what+" (seeded scenario)", []string{opReset})
+			c.Stat("seeded case not evaluated: " + sig)
+			return
+		}
+		if !(r.haveChild && r.child.Returned && r.child.RunError == "") {
+			c.Fail("C08:all-runs-complete", "runs:run-died", fmt.Sprintf("seeded %s scenario runs=%d (%s): child exit %d, returned=%v, error %q, first panic: %s",
+				k.Family, k.Runs, names[vi], r.exit, r.haveChild && r.child.Returned, r.child.RunError, firstPanic(r.stderr)), ops)
+			return
+		}
+	}
+	files := func(r *mrResult, i int) map[string][]byte {
+		out := map[string][]byte{}
+		entries, _ := os.ReadDir(e.outDirOf(r.k))
+		for _, en := range entries {
+			if strings.HasPrefix(en.Name(), k.Name+runTag(i, k.Runs)) {
+				b, _ := os.ReadFile(filepath.Join(e.outDirOf(r.k), en.Name()))
+				out[en.Name()] = b
+			}
+		}
+		return out
+	}
+	compared := 0
+	for i := 1; i <= k.Runs; i++ {
+		ref := files(rs[1+i], i) // the run alone
+		if len(ref) == 0 {
+			c.Fail("C08:own-complete-result", "runs:output-missing", fmt.Sprintf("seeded %s scenario: run %d executed alone wrote no file", k.Family, i), ops)
+			continue
+		}
+		for vi := 0; vi < 2; vi++ {
+			got := files(rs[vi], i)
+			var names2 []string
+			for n := range ref {
+				names2 = append(names2, n)
+			}
+			for n := range got {
+				if _, ok := ref[n]; !ok {
+					names2 = append(names2, n)
+				}
+			}
+			sort.Strings(names2)
+			for _, n := range names2 {
+				a, okA := ref[n]
+				b, okB := got[n]
+				compared++
+				if !okA || !okB || !bytes.Equal(a, b) {
+					what := "is missing in one of the two"
+					if okA && okB {
+						what = "differs, first at " + firstDifference(a, b)
+					}
+					c.Fail("C08:result-equals-solo", "runs:result-differs-from-solo",
+						fmt.Sprintf("%s scenario, %d runs of %d iterations, every generator of a run seeded from its run id: file %s of run %d executed ALONE vs. the same run with %s %s",
+							k.Family, k.Runs, k.MaxIter, n, i, names[vi], what), ops)
+					break
+				}
+			}
+		}
+	}
+	c.Stat(fmt.Sprintf("seeded files compared byte for byte: %d", compared))
+}
+
 // ---------------------------------------------------------------- the clone walk
 
-func (e *mrEnv) cloneWalk(family, modelType string) (coolantShared bool) {
+func idsToken(ids []int) string {
+	if len(ids) == 0 {
+		return "-"
+	}
+	var ss []string
+	for _, i := range ids {
+		ss = append(ss, strconv.Itoa(i))
+	}
+	return strings.Join(ss, ",")
+}
+
+func (e *mrEnv) cloneWalk(family, modelType string, checkInvariant bool) (coolantShared bool) {
 	c := e.c
 	tok := family
 	if modelType == "DumbModel" {
 		tok += "Dumb"
 	}
-	k := mrCase{Kind: "scenario", Family: family, Name: "walk", Runs: 2, Conc: 1, T0: 10, CF: 0.99, MaxIter: 10, Model: modelType,
-		DataPath: relToCwd(filepath.Join(e.testdataDir(), "ValidModel.csv")), OutputPath: filepath.Join(c.Out, "walk-solutions"), OutputType: "CSV", Quiet: true}
+	if checkInvariant {
+		tok += "Inv"
+	}
+	k := mrCase{Kind: "scenario", Family: family, Name: "walk", Runs: 2, Conc: 1, T0: 10, CF: 0.99, MaxIter: 40, Model: modelType,
+		DataPath: relToCwd(filepath.Join(e.testdataDir(), "ValidModel.csv")), OutputPath: filepath.Join(c.Out, "walk-solutions-"+tok), OutputType: "CSV",
+		Quiet: true, CheckInvariant: checkInvariant}
 	tomlPath := filepath.Join(c.Out, "walk-"+tok+".toml")
 	must(os.WriteFile(tomlPath, []byte(k.toml()), 0o644))
-	var g0, g1, g2 *walkGraph
+	var g0, g1, g2, g1b, g2b *walkGraph
 	var buildErr error
+	var clones []annealing.Annealer
 	p := protect(func() {
 		in, err := buildScenarioFromToml(tomlPath)
 		if err != nil {
@@ -824,7 +1154,7 @@ func (e *mrEnv) cloneWalk(family, modelType string) (coolantShared bool) {
 			return
 		}
 		ann := in.VerifAnnealer()
-		clones := []annealing.Annealer{ann.DeepClone(), ann.DeepClone()}
+		clones = []annealing.Annealer{ann.DeepClone(), ann.DeepClone()}
 		for i, cl := range clones {
 			// what Runner.run does with a clone before annealing it
 			id := fmt.Sprintf("walk (%d/2)", i+1)
@@ -850,7 +1180,23 @@ func (e *mrEnv) cloneWalk(family, modelType string) (coolantShared bool) {
 		c.Fail("C08:clone-private", "runs:clone-walk-failed", fmt.Sprintf("could not build / clone / initialise the %s annealer: %v %s", tok, buildErr, p), []string{opReset})
 		return false
 	}
-	shared := sharedTop(g1, g2)
+	// ---- (a) nothing but allow-listed objects is reachable from two clones
+	reportShared := func(when string, ga, gb *walkGraph) []*walkNode {
+		shared := sharedTop(ga, gb)
+		for _, n := range shared {
+			class, ok := classify(n)
+			if !ok {
+				c.Fail("C08:clone-private", "runs:clone-shares:"+shortType(n.typ),
+					fmt.Sprintf("two DeepClone()s of the configured %s annealer (each prepared and Initialise()d as Runner.run/Anneal do; %s) both reach the same %s %s at %s; it is not on the allow-list of immutable or locked objects", tok, when, n.kind, n.typ, n.path),
+					[]string{opReset})
+			}
+			c.Stat(fmt.Sprintf("walk %s %s shared %s [%s]", tok, when, shortType(n.typ), class))
+		}
+		return shared
+	}
+	sharedBefore := reportShared("before annealing", g1, g2)
+
+	// the temperature cells of template and clones (finding D4 / the seqshared prediction)
 	cellTypes := familyCoolantTypes[family]
 	if modelType == "DumbModel" {
 		cellTypes = []string{"*variable.SimpleUndoableDecisionVariable"}
@@ -862,32 +1208,134 @@ func (e *mrEnv) cloneWalk(family, modelType string) (coolantShared bool) {
 		return 0
 	}
 	ct, c1, c2 := cell(g0), cell(g1), cell(g2)
-	var toks []string
-	allOK := true
-	for _, n := range shared {
-		class, ok := classify(n)
-		if !ok {
-			allOK = false
-			c.Fail("C08:clone-private", "runs:clone-shares:"+shortType(n.typ),
-				fmt.Sprintf("two DeepClone()s of the configured %s annealer (each prepared and Initialise()d as Runner.run/Anneal do) both reach the same %s %s at %s; it is not on the allow-list of immutable or locked objects", tok, n.kind, n.typ, n.path),
-				[]string{opReset})
-		}
-		c.Stat(fmt.Sprintf("walk %s shared %s [%s]", tok, shortType(n.typ), class))
-		toks = append(toks, strings.ReplaceAll(n.path, " ", "_")+"|"+strings.ReplaceAll(shortType(n.typ), " ", "_")+"|"+b2s(ok))
-	}
 	cellsPrivate := ct != 0 && c1 != 0 && c2 != 0 && c1 != ct && c2 != ct && c1 != c2
-	op := fmt.Sprintf("walk %s %d %d %d %d", tok, ct, c1, c2, len(toks))
-	if len(toks) > 0 {
-		op += " " + strings.Join(toks, " ")
-	}
-	// addresses differ from process to process: they are data for the model, not part of a stable replay
-	c.Op(op, fmt.Sprintf("cells-private=%s shared-allowed=%s", b2s(cellsPrivate), b2s(allOK)))
-	c.Stat(fmt.Sprintf("walk %s nodes=%d shared-top=%d", tok, len(g1.order), len(shared)))
-	c.Nontrivial("walk/" + tok)
 	if ct == 0 || c1 == 0 || c2 == 0 {
-		c.Fail("C08:clone-private", "runs:clone-walk-failed", fmt.Sprintf("%s: no node of type %v found in template/clone graphs (walk out of date?)", tok, cellTypes), []string{opReset, op})
+		c.Fail("C08:structural:clone-walk-finds-the-coolant", "runs:clone-walk-failed", fmt.Sprintf("%s: no node of type %v found in template/clone graphs (walk out of date?)", tok, cellTypes), []string{opReset})
 	}
-	e.c.extra["walk "+tok] = map[string]interface{}{"nodes_clone1": len(g1.order), "nodes_clone2": len(g2.order), "nodes_template": len(g0.order), "shared_top": toks}
+
+	// ---- (b) the shared part: every node reachable from two of {template, clone 1, clone 2}
+	type sharedNode struct {
+		n          *walkNode
+		in1, in2   bool
+		w1, w2     bool
+		locked     bool
+		lockClass  string
+		firstWrite writtenNode
+	}
+	sharedSet := map[nodeKey]*sharedNode{}
+	addShared := func(ga, gb *walkGraph) {
+		for key, n := range ga.nodes {
+			if _, ok := gb.nodes[key]; ok {
+				if _, seen := sharedSet[key]; !seen {
+					sharedSet[key] = &sharedNode{n: n}
+				}
+			}
+		}
+	}
+	addShared(g1, g2)
+	addShared(g0, g1)
+	addShared(g0, g2)
+	var keys []nodeKey
+	for key, sn := range sharedSet {
+		_, sn.in1 = g1.nodes[key]
+		_, sn.in2 = g2.nodes[key]
+		sn.lockClass, sn.locked = classifyWritten(sn.n.path, sn.n.typ)
+		keys = append(keys, key)
+	}
+	sort.Slice(keys, func(i, j int) bool {
+		a, b := sharedSet[keys[i]].n, sharedSet[keys[j]].n
+		if a.path != b.path {
+			return a.path < b.path
+		}
+		return a.kind < b.kind
+	})
+	sg := &walkGraph{nodes: map[nodeKey]*walkNode{}}
+	for _, key := range keys {
+		sg.nodes[key] = sharedSet[key].n
+		sg.order = append(sg.order, key)
+	}
+	// ---- (c) anneal clone 1, then clone 2, comparing the content of the shared part before / after each
+	annealFailed := ""
+	for ci, cl := range clones {
+		before := snapshotGraph(sg)
+		if p := protect(func() { cl.Anneal() }); p != "" {
+			annealFailed = fmt.Sprintf("clone %d: %s", ci+1, clip(p, 300))
+			break
+		}
+		for _, w := range diffSnapshots(sg, before, snapshotGraph(sg)) {
+			sn := sharedSet[w.key]
+			if ci == 0 {
+				sn.w1 = true
+			} else {
+				sn.w2 = true
+			}
+			if sn.firstWrite.Path == "" {
+				sn.firstWrite = w
+			}
+		}
+	}
+	if annealFailed != "" {
+		c.Fail("C08:clone-private", "runs:clone-walk-failed", fmt.Sprintf("%s: annealing a prepared clone in process failed: %s", tok, annealFailed), []string{opReset})
+		return !cellsPrivate
+	}
+	var r1, w1, r2, w2, lk, bad12, bad21 []int
+	lockedRead := false
+	for idx, key := range keys {
+		id := idx + 1
+		sn := sharedSet[key]
+		if sn.locked {
+			lk = append(lk, id)
+		}
+		if sn.in1 && !sn.locked {
+			r1 = append(r1, id)
+		}
+		if sn.in2 && !sn.locked {
+			r2 = append(r2, id)
+		}
+		if sn.w1 {
+			w1 = append(w1, id)
+			if (sn.in2 || sn.w2) && !sn.locked {
+				bad12 = append(bad12, id)
+			}
+		}
+		if sn.w2 {
+			w2 = append(w2, id)
+			if (sn.in1 || sn.w1) && !sn.locked {
+				bad21 = append(bad21, id)
+			}
+		}
+		if sn.w1 || sn.w2 {
+			c.Stat(fmt.Sprintf("walk %s written while a clone annealed: %s [%s]", tok, shortType(sn.n.typ), sn.lockClass))
+			if !sn.locked {
+				w := sn.firstWrite
+				c.Fail("C08:shared-objects-not-written", writtenSignature(w),
+					fmt.Sprintf("%s: %s %s is reachable from more than one of {configured annealer, clone 1, clone 2} and was written while a clone annealed: %s was %s, is %s (%d leaf value(s) differ); path %s; it is not in a class whose accesses are all lock-guarded",
+						tok, w.Kind, shortType(w.Type), w.Leaf, w.Before, w.After, w.Leaves, w.Path), []string{opReset})
+			}
+		}
+	}
+	disjoint := len(bad12) == 0 && len(bad21) == 0 && !lockedRead
+	verb, impl := "walk", ""
+	if checkInvariant {
+		// the configuration with a stateful observer on the shared notifier is KNOWN not to satisfy the
+		// hypothesis (D28): both sides state the verdict, the finding is reported per written object above
+		verb, impl = "walkx", "Disjoint="+b2s(disjoint)+" "
+	}
+	op := fmt.Sprintf("%s %s n=%d R1=%s W1=%s R2=%s W2=%s L=%s", verb, tok, len(keys), idsToken(r1), idsToken(w1), idsToken(r2), idsToken(w2), idsToken(lk))
+	c.Op(op, fmt.Sprintf("%sw1∩(r2∪w2)=%s w2∩(r1∪w1)=%s locked-read=%s", impl, idsToken(bad12), idsToken(bad21), b2s(lockedRead)))
+	c.Stat(fmt.Sprintf("walk %s nodes=%d shared-top=%d shared-part=%d written=%d/%d locked=%d cells-private=%v", tok, len(g1.order), len(sharedBefore), len(keys), len(w1), len(w2), len(lk), cellsPrivate))
+	c.Nontrivial("walk/" + tok)
+
+	// ---- (d) the walk again, after annealing
+	if p := protect(func() { g1b, g2b = walkFrom(clones[0]), walkFrom(clones[1]) }); p == "" {
+		reportShared("after annealing", g1b, g2b)
+	}
+	var topToks []string
+	for _, n := range sharedBefore {
+		topToks = append(topToks, n.path+"|"+shortType(n.typ))
+	}
+	e.c.extra["walk "+tok] = map[string]interface{}{"nodes_clone1": len(g1.order), "nodes_clone2": len(g2.order), "nodes_template": len(g0.order),
+		"shared_top": topToks, "shared_part": len(keys), "written_by_clone1": len(w1), "written_by_clone2": len(w2), "locked": len(lk)}
 	return !cellsPrivate
 }
 
@@ -905,8 +1353,8 @@ func (e *mrEnv) genCases() (cases []mrCase, dirs []string, stems []string) {
 	base := func(kind, fam string, runs, conc int) mrCase {
 		return mrCase{Kind: kind, Family: fam, Name: "scn", Runs: runs, Conc: conc,
 			T0: []float64{10, 1000, 0.5, 37.25}[r.Intn(4)], CF: []float64{0.99, 0.999, 0.9, 1}[r.Intn(4)],
-			MaxIter: []int{0, 1, 30, 120, 300}[r.Intn(5)], OutputType: []string{"CSV", "CSV", "CSV", "CSV", "JSON"}[r.Intn(5)],
-			Model: "CatchmentModel", Quiet: r.Chance(0.6)}
+			MaxIter: []int{0, 1, 30, 120, 300}[r.Intn(5)], OutputType: []string{"CSV", "CSV", "CSV", "JSON", "JSON"}[r.Intn(5)],
+			Model: "CatchmentModel", Quiet: r.Chance(0.6), Detail: r.Chance(0.3)}
 	}
 	stem := func() string { return []string{"Valid", "Testing"}[r.Intn(2)] }
 
@@ -988,7 +1436,21 @@ func (e *mrEnv) genCases() (cases []mrCase, dirs []string, stems []string) {
 			k.At = 1
 		}
 		k.AsError = r.Bool()
+		k.Site = []string{"step", "step", "clone", "finish"}[f%4]
+		k.Detail = false
 		add(k, stem(), true, true) // absolute paths: this stream is about failure isolation, not about the working directory
+	}
+	// (g) result = solo under deterministic seeding: per group the scenario with all runs concurrent, all
+	// runs sequential, and every run alone
+	for g := 0; g < c.N(3, 12); g++ {
+		runs := 2 + r.Intn(3)
+		k := base("seeded", families[g%3], runs, runs)
+		k.Name, k.Seeded, k.Quiet = "sd", true, true
+		k.MaxIter = []int{30, 120, 300}[r.Intn(3)]
+		k.Group = g + 1
+		for _, v := range seededVariants(k) {
+			add(v, "Valid", true, false)
+		}
 	}
 	return
 }
@@ -1020,7 +1482,11 @@ func (e *mrEnv) runAll(cases []mrCase, dirs []string) []*mrResult {
 	var wg sync.WaitGroup
 	sem := make(chan struct{}, par)
 	for i := range cases {
-		if i%e.c.Shards != e.c.Shard {
+		shardOf := i
+		if cases[i].Kind == "seeded" {
+			shardOf = cases[i].Group // the children of one group are evaluated together
+		}
+		if shardOf%e.c.Shards != e.c.Shard {
 			continue
 		}
 		wg.Add(1)
@@ -1046,9 +1512,10 @@ func suiteMultiRun(c *Ctx) {
 	sharedCoolant := map[string]bool{}
 	if c.Shard == 0 {
 		for _, fam := range []string{"Kirkpatrick", "Suppapitnarm", "AveragedSuppapitnarm"} {
-			sharedCoolant[fam] = e.cloneWalk(fam, "CatchmentModel")
+			sharedCoolant[fam] = e.cloneWalk(fam, "CatchmentModel", false)
 		}
-		e.cloneWalk("Kirkpatrick", "DumbModel")
+		e.cloneWalk("Kirkpatrick", "DumbModel", false)
+		e.cloneWalk("Kirkpatrick", "CatchmentModel", true) // CheckingLoopInvariant: one stateful observer on the shared notifier
 	}
 	// 2.-5. whole scenarios in child processes
 	cases, dirs, _ := e.genCases()
@@ -1057,6 +1524,7 @@ func suiteMultiRun(c *Ctx) {
 	c.extra["children"] = len(cases)
 	c.extra["children_wall_s"] = time.Since(t0).Seconds()
 	loadsFailed := false
+	seeded := map[int][]*mrResult{}
 	for i, r := range results {
 		if r == nil {
 			continue
@@ -1069,6 +1537,11 @@ func suiteMultiRun(c *Ctx) {
 		switch cases[i].Kind {
 		case "fault":
 			e.evalFault(r)
+		case "seeded":
+			seeded[cases[i].Group] = append(seeded[cases[i].Group], r)
+			if len(seeded[cases[i].Group]) == cases[i].Runs+2 {
+				e.evalSeeded(seeded[cases[i].Group])
+			}
 		default:
 			e.evalScenario(r)
 			if cases[i].Name == "seq" && sharedCoolant[cases[i].Family] {
@@ -1086,7 +1559,17 @@ func suiteMultiRun(c *Ctx) {
 		if !c.Thorough() || len(c.direct) > before {
 			continue
 		}
-		os.RemoveAll(filepath.Join(r.dir, "cwd")) // keep the work directory small in the thorough tier
+		// keep the work directory small in the thorough tier
+		if cases[i].Kind == "seeded" {
+			// the files of a seeded group are compared when its last child has been collected
+			if g := seeded[cases[i].Group]; len(g) == cases[i].Runs+2 {
+				for _, m := range g {
+					os.RemoveAll(filepath.Join(m.dir, "cwd"))
+				}
+			}
+			continue
+		}
+		os.RemoveAll(filepath.Join(r.dir, "cwd"))
 	}
 }
 
@@ -1096,11 +1579,13 @@ func replayMultiRun(e *mrEnv) {
 	for _, l := range readLines(c.Replay) {
 		if strings.HasPrefix(l, "reset walk ") {
 			tok := strings.TrimPrefix(l, "reset walk ")
+			inv := strings.HasSuffix(tok, "Inv")
+			tok = strings.TrimSuffix(tok, "Inv")
 			fam, model := strings.TrimSuffix(tok, "Dumb"), "CatchmentModel"
 			if strings.HasSuffix(tok, "Dumb") {
 				model = "DumbModel"
 			}
-			e.cloneWalk(fam, model)
+			e.cloneWalk(fam, model, inv)
 			continue
 		}
 		if !strings.HasPrefix(l, "reset {") {
@@ -1114,6 +1599,15 @@ func replayMultiRun(e *mrEnv) {
 		stem := "Valid"
 		if strings.Contains(k.DataPath, "Testing") {
 			stem = "Testing"
+		}
+		if k.Kind == "seeded" {
+			var rs []*mrResult
+			for _, v := range seededVariants(k) {
+				dir := e.prepare(&v, stem, filepath.IsAbs(k.DataPath), filepath.IsAbs(k.OutputPath))
+				rs = append(rs, e.runChild(v, dir))
+			}
+			e.evalSeeded(rs)
+			continue
 		}
 		dir := e.prepare(&k, stem, filepath.IsAbs(k.DataPath), filepath.IsAbs(k.OutputPath))
 		r := e.runChild(k, dir)
